@@ -57,19 +57,19 @@ theorem C02_call_vars (w : World) (cx : Ctx) (base : Env) (c : Cache)
     (hcall : defs .callVars = pre ++ (m, d) :: post) (hpost : m ∉ names post)
     (htask : m ∉ names (defs .taskVars)) :
     ∃ s : St, get (getVariables w cx base (layersOf defs) c).env m =
-      (evalDef w cx.rootDir (evalBlock w cx.rootDir pre s.env s.cache).1
-        (evalBlock w cx.rootDir pre s.env s.cache).2 d).1 := by
+      (evalDef w cx.rootDir (evalBlock w (fun _ => cx.rootDir) pre s.env s.cache).1
+        (evalBlock w (fun _ => cx.rootDir) pre s.env s.cache).2 d).1 := by
   let pre4 : List Layer := [⟨.taskfileEnv, defs .taskfileEnv⟩, ⟨.taskfileVars, defs .taskfileVars⟩,
       ⟨.includeVars, defs .includeVars⟩, ⟨.includedTaskfileVars, defs .includedTaskfileVars⟩]
   have hl : layersOf defs = pre4 ++ [⟨.callVars, defs .callVars⟩, ⟨.taskVars, defs .taskVars⟩] := rfl
   simp only [getVariables]
   rw [hl, runLayers_append]
-  refine ⟨runLayers w cx pre4 0 { td := none, env := base, cache := c }, ?_⟩
-  generalize runLayers w cx pre4 0 { td := none, env := base, cache := c } = s
+  refine ⟨runLayers w cx pre4 { env := base, cache := c }, ?_⟩
+  generalize runLayers w cx pre4 { env := base, cache := c } = s
   simp only [runLayers]
-  rw [stepLayer_frame _ _ _ _ _ _ htask]
-  simp only [stepLayer, layerDir, Site.inTaskDir, hcall, Bool.false_eq_true, if_false]
-  exact evalBlock_last w cx.rootDir pre post m d s.env s.cache hpost
+  rw [stepLayer_frame _ _ _ _ _ htask]
+  simp only [stepLayer, hcall, siteDirf_root cx .callVars rfl]
+  exact evalBlock_last w _ pre post m d s.env s.cache hpost
 
 example : product [(0, [[1], [2]]), (1, [[7], [8]])] =
     [[(0, [1]), (1, [7])], [(0, [1]), (1, [8])], [(0, [2]), (1, [7])], [(0, [2]), (1, [8])]] := by decide
